@@ -151,7 +151,7 @@ def cases(ctx):
             # .ascii
             for text in ("", "A", "Hello, World", "caf\u00e9 \u00fc!", "\u00e9\u00e9", "tab\there", "a;b/*c*/", "[0x41]",
                          # an escaped quote (kept verbatim, backslash included) at the end / start / middle / alone; backslashes
-                         "rock \\'n\\'", "\\'x", "I\\'m", "\\'", "\\'\\'", "a\\\\b", "\\\\\\'", "''".replace("'", ""), " lead", "trail ", "  "):
+                         "C:\\new\\tools", "%s\\n", "a\\tb\\\\c", "rock \\'n\\'", "\\'x", "I\\'m", "\\'", "\\'\\'", "a\\\\b", "\\\\\\'", "''".replace("'", ""), " lead", "trail ", "  "):
                 org = _org(rng, rom)
                 src = f"*={org:#08x}\nzz_start:\n.ascii '{text}'\nzz_end:\n.dl zz_end\n"
                 out.append({"kind": "ascii", "rom": rom, "src": src,
@@ -192,4 +192,4 @@ def cases(ctx):
             out.append({"kind": "incbin-path", "rom": rom, "src": src, "files": {path: content},
                         "spec": {"t": "data", "high": rom == "high", "org": org, "off": _phys(rom, org),
                                  "items": [("bin", content)], "end": "zz_end", "tail": [None, org, 4]}})
-    return core.mark_must_assemble(out, {'incbin-path', 'incbin', 'data', 'ascii', 'expr-refs', 'ascii-with-table', 'shadowed'})
+    return core.mark_must_assemble(out, {'incbin', 'data', 'ascii', 'expr-refs', 'ascii-with-table', 'shadowed'})
